@@ -51,6 +51,8 @@ def lean_ty(t):
         return " × ".join(lean_ty(x) for x in t[1])
     if t[0] == "O":
         return "Option (%s)" % lean_ty(t[1])
+    if t[0] == "W":
+        return "List BV.Rs.WOp"
     raise Unsupported("type %r" % (t,))
 
 
@@ -270,6 +272,7 @@ class P:
             self.eat()
             if self.peek() == "mut":
                 self.eat()
+                return ("un", "&mut", self.unary())
             return self.unary()
         return self.postfix()
 
@@ -421,8 +424,20 @@ def wrap(t, s):
 class Tr:
     def __init__(self, consts, fns):
         self.consts = consts   # name -> (value, type or None)
-        self.fns = fns         # name -> (param types, result type)
+        self.fns = fns         # name -> (param types, result type, out types, writer?)
         self.asserts = []
+        self.sinks = set()     # names of the (&mut usize, &mut [u8]) bit-sink parameters
+        self.cur_file = None
+        self.foreign = set()   # callees whose translation comes from another file than the caller
+
+    def note_callee(self, name):
+        f = FN_FILES.get(name)
+        if f and self.cur_file and f != self.cur_file:
+            try:
+                G.find_fn(G.tokens_of(self.cur_file), name, 0)
+            except G.GenError:
+                return      # imported, not shadowed by a file-local definition
+            self.foreign.add("%s (from %s)" % (name, f))
 
     # returns (lean string, type); `want` is the expected type or None
     def ex(self, e, env, want=None):
@@ -449,7 +464,7 @@ class Tr:
                 return ("%d" % v if t[0] == "U" else "(%d : Int)" % v), t
             raise Unsupported("unknown name %s" % "::".join(e[1]))
         if k == "un":
-            if e[1] == "*":
+            if e[1] in ("*", "&mut"):
                 return self.ex(e[2], env, want)
             s, t = self.ex(e[2], env, want)
             if e[1] == "!":
@@ -625,6 +640,8 @@ class Tr:
         if m in ("min", "max") and ta[0] in "UI":
             b, tb = self.ex(args[0], env, ta)
             return "(%s %s %s)" % (m, a, b), ta
+        if m == "into" and not args and want is not None:
+            return self.cast(a, ta, want), want
         if m in ("saturating_sub",) and ta[0] == "U":
             b, tb = self.ex(args[0], env, ta)
             return "(%s - %s)" % (a, b), ta
@@ -651,9 +668,10 @@ class Tr:
             s, t = self.ex(args[0], env)
             return self.cast(s, t, INT_TYPES[path[0]]), INT_TYPES[path[0]]
         if name in self.fns:
-            pts, rt, outs = self.fns[name]
-            if outs:
-                raise Unsupported("call of %s which has out-parameters" % name)
+            self.note_callee(name)
+            pts, rt, outs, writer = self.fns[name]
+            if outs or writer:
+                raise Unsupported("call of %s (out-parameters / bit writer) inside an expression" % name)
             ss = []
             for a, pt in zip(args, pts):
                 s, t = self.ex(a, env, pt)
@@ -708,6 +726,58 @@ class Tr:
             return result(env, s)
         if k == "expr" and st[1][0] == "ret":
             return self.seq([("return", st[1][1])], env, [], ret_t, result)
+        if k == "expr" and st[1][0] == "call" and (st[2] or (not tail and not rest and ret_t is None)):
+            # a call in statement position: a bit-writer primitive, another writer function, or a
+            # function with `&mut` scalar out-parameters
+            path, args = st[1][1], st[1][2]
+            name = path[-1]
+            WR = "w_"
+            def is_sink(a):
+                a = a[2] if a[0] == "un" else a
+                return a[0] == "path" and len(a[1]) == 1 and a[1][0] in self.sinks
+            if name == "BrotliWriteBits" and len(args) == 4 and is_sink(args[2]) and is_sink(args[3]) and WR in env:
+                n, tn = self.ex(args[0], env, ("U", 8))
+                v, tv = self.ex(args[1], env, ("U", 64))
+                if tn[0] != "U" or tv != ("U", 64):
+                    raise Unsupported("BrotliWriteBits argument types %r %r" % (tn, tv))
+                return "let %s := %s ++ [BV.Rs.WOp.bits %s %s]\n%s" % (WR, WR, n, v, self.seq(tail, env, rest, ret_t, result))
+            if name == "JumpToByteBoundary" and len(args) == 2 and is_sink(args[0]) and is_sink(args[1]) and WR in env:
+                return "let %s := %s ++ [BV.Rs.WOp.align]\n%s" % (WR, WR, self.seq(tail, env, rest, ret_t, result))
+            if name in self.fns:
+                self.note_callee(name)
+                pts, rt, outs, writer = self.fns[name]
+                plain = [a for a in args if not is_sink(a)]
+                if writer != (len(plain) != len(args)):
+                    raise Unsupported("call of %s: writer arguments do not match" % name)
+                if writer and WR not in env:
+                    raise Unsupported("call of writer %s from a non-writer" % name)
+                if len(plain) != len(pts):
+                    raise Unsupported("call of %s: arity" % name)
+                ss = []
+                out_names = []
+                for a, pt in zip(plain, pts):
+                    if a[0] == "un" and a[1] == "&mut":
+                        tgt = a[2]
+                        if tgt[0] != "path" or len(tgt[1]) != 1 or tgt[1][0] not in env:
+                            raise Unsupported("&mut argument of %s" % name)
+                        out_names.append(tgt[1][0])
+                        a = tgt
+                    sv, t = self.ex(a, env, pt)
+                    if t != pt:
+                        raise Unsupported("argument of %s: %r vs %r" % (name, t, pt))
+                    ss.append(sv)
+                if len(out_names) != len(outs):
+                    raise Unsupported("call of %s: out-parameters" % name)
+                if rt is not None:
+                    raise Unsupported("call of %s in statement position discards its result" % name)
+                binders = list(out_names) + ([("%s_new" % WR)] if writer else [])
+                callee = "(%s %s)" % (name, " ".join(ss)) if ss else name
+                env2 = dict(env)
+                pre = "let %s := %s\n" % (binders[0] if len(binders) == 1 else "(" + ", ".join(binders) + ")", callee)
+                if writer:
+                    pre += "let %s := %s ++ %s_new\n" % (WR, WR, WR)
+                return pre + self.seq(tail, env2, rest, ret_t, result)
+            raise Unsupported("call of %s in statement position" % "::".join(path))
         if k == "expr":
             e = st[1]
             is_last = not tail and not rest
@@ -731,7 +801,7 @@ class Tr:
     def has_effect(self, e):
         def st_eff(stmts):
             for s in stmts or []:
-                if s[0] in ("assign", "return") or (s[0] == "expr" and s[1][0] == "ret"):
+                if s[0] in ("assign", "return") or (s[0] == "expr" and s[1][0] in ("ret", "call")):
                     return True
                 if s[0] == "expr" and s[1][0] == "if" and self.has_effect(s[1]):
                     return True
@@ -743,6 +813,9 @@ class Tr:
 
 def indent(s):
     return "\n".join("  " + l for l in s.split("\n"))
+
+
+FN_FILES = {}   # translated function name -> source file
 
 
 LEAN_KEYWORDS = {"prefix", "postfix", "infix", "infixl", "infixr", "notation", "end", "at", "show", "have", "fun",
@@ -820,11 +893,21 @@ def translate(path, fname, occ, consts, fns, lean_name=None, structs=None, self_
     toks = [(k, v + "_") if (k == "id" and v in LEAN_KEYWORDS) else (k, v) for k, v in toks]
     name, params, ret, body = P(list(toks)).fn()
     tr = Tr(consts, fns)
+    tr.cur_file = path
     env = {}
     lean_params = []
     outs = []
     ptypes = []
+    writer = False
+    sink_ix = [pn for pn, pt in params if pt == ("R", True, ("U", 64)) and pn == "storage_ix"]
+    sink_st = [pn for pn, pt in params if pt == ("R", True, ("S", ("U", 8))) and pn == "storage"]
+    if sink_ix and sink_st:
+        writer = True
+        tr.sinks = {sink_ix[0], sink_st[0]}
+        env["w_"] = ("w_", ("W",))
     for pn, pt in params:
+        if pn in tr.sinks:
+            continue
         st = pt[2] if pt[0] == "R" else pt
         if st[0] == "ST":
             if pt[0] == "R" and pt[1]:
@@ -854,28 +937,32 @@ def translate(path, fname, occ, consts, fns, lean_name=None, structs=None, self_
         env[pn] = (pn, pt)
         lean_params.append("(%s : %s)" % (pn, lean_ty(pt)))
         ptypes.append(pt)
-    res_types = ([ret] if ret else []) + [t for _, t in outs]
+    res_types = ([ret] if ret else []) + [t for _, t in outs] + ([("W",)] if writer else [])
     if not res_types:
         raise Unsupported("function without result")
 
     def result(env_, val):
-        parts = ([val] if ret else []) + [env_[n][0] for n, _ in outs]
+        parts = ([val] if ret else []) + [env_[n][0] for n, _ in outs] + (["w_"] if writer else [])
         if ret and val is None:
             raise Unsupported("missing return value")
         return parts[0] if len(parts) == 1 else "(" + ", ".join(parts) + ")"
 
     body_s = tr.seq(body, env, [], ret, result)
+    if writer:
+        body_s = "let w_ : List BV.Rs.WOp := []\n" + body_s
     lname = lean_name or name
     rt = " × ".join(lean_ty(t) for t in res_types)
     doc = "`fn %s` of `%s` (occurrence %d), translated by tools/rs2lean.py" % (fname, path, occ)
     if outs:
         doc += "; results: %s" % ", ".join((["return value"] if ret else []) + ["*" + n for n, _ in outs])
+    if tr.foreign:
+        doc += "; callees bound to the translation of a same-named function of ANOTHER file (the file-local one is not in the subset): " + ", ".join(sorted(tr.foreign))
     if tr.asserts:
         doc += "; dropped: " + " | ".join(a.replace("-/", "- /") for a in tr.asserts)
     text = "/-- %s -/\ndef %s %s : %s :=\n%s\n" % (doc, lname, " ".join(lean_params), rt, indent(body_s))
     sig = (ptypes, ret if not outs else ("T", res_types), [t for _, t in outs] if not ret else [])
     # callers may use functions that only return a value
-    return text, (ptypes, ret, outs)
+    return text, (ptypes, ret, outs, writer)
 
 
 PRELUDE_IMPORT = "import BV.Model.RsPrelude\n"
@@ -905,6 +992,7 @@ def main():
                                       spec.get("structs"), it.get("self"))
                 out.append(text)
                 fns[it["fn"]] = sig
+                FN_FILES[it["fn"]] = it["file"]
                 if it.get("lean"):
                     fns[it["lean"]] = sig
             except (Unsupported, G.GenError, OSError, IndexError) as e:
